@@ -10,7 +10,6 @@ use ska::ska_dict::bit_encoding::{
     base_to_prob, decode_kmer, encode_base, is_ambiguous, UInt, IUPAC, RC_IUPAC,
 };
 use ska::ska_dict::bloom_filter::KmerFilter;
-use ska::ska_dict::nthash::NtHashIterator;
 use ska::ska_dict::split_kmer::SplitKmer;
 use ska::ska_dict::SkaDict;
 use ska::ska_ref::aln_writer::AlnWriter;
@@ -125,7 +124,10 @@ fn op_iter<IntT: for<'a> UInt<'a>>(op: &Value) -> Value {
                 s["h"] = u64_halves(it.get_hash());
                 let p = it.get_middle_pos();
                 let start = p - (k - 1) / 2;
-                s["hs"] = u64_halves(NtHashIterator::new(&seq[start..start + k], k, rc).curr_hash());
+                let w = &seq[start..start + k];
+                if let Some(fresh) = SplitKmer::<IntT>::new(Cow::Borrowed(w), k, None, k, rc, 0, ska::QualFilter::NoFilter, true) {
+                    s["hs"] = u64_halves(fresh.get_hash());
+                }
             }
             steps.push(s);
             cur = it.get_next_kmer();
@@ -243,18 +245,25 @@ fn op_prim<IntT: for<'a> UInt<'a>>(op: &Value) -> Value {
 }
 
 // hash: NtHash from scratch and rolled along a sequence (no N), both strands
+/// Read hashes only through the public SplitKmer API (is_reads = true): `rolled` = hashes while
+/// sliding along the sequence, `scratch` = hash of a fresh iterator built on each window alone.
 fn hash_lists(seq: &[u8], k: usize, rc: bool) -> (Vec<Value>, Vec<Value>) {
     let mut rolled: Vec<Value> = Vec::new();
     let mut scratch: Vec<Value> = Vec::new();
     if seq.len() >= k {
-        let mut it = NtHashIterator::new(&seq[0..k], k, rc);
-        rolled.push(u64_halves(it.curr_hash()));
-        for i in 1..=(seq.len() - k) {
-            it.roll_fwd(encode_base(seq[i - 1]), encode_base(seq[i + k - 1]));
-            rolled.push(u64_halves(it.curr_hash()));
+        if let Some(mut it) = SplitKmer::<u128>::new(Cow::Borrowed(seq), seq.len(), None, k, rc, 0, ska::QualFilter::NoFilter, true) {
+            loop {
+                rolled.push(u64_halves(it.get_hash()));
+                if it.get_next_kmer().is_none() {
+                    break;
+                }
+            }
         }
         for i in 0..=(seq.len() - k) {
-            scratch.push(u64_halves(NtHashIterator::new(&seq[i..i + k], k, rc).curr_hash()));
+            let w = &seq[i..i + k];
+            if let Some(it) = SplitKmer::<u128>::new(Cow::Borrowed(w), k, None, k, rc, 0, ska::QualFilter::NoFilter, true) {
+                scratch.push(u64_halves(it.get_hash()));
+            }
         }
     }
     (rolled, scratch)
